@@ -251,3 +251,25 @@ package shard
 //@   property C09, C15
 //@   loop 1 invariant rangeindex >= 0 ==> cacheDropAttempted()
 //@   loop 3 iteration [every_removed_id_gets_its_blob_deletion_attempted] blobDeleteAttempted()
+
+// ---- C15 (the shard dropping cached copies itself): an object the metadata reports as
+// available must stay readable, and a not-yet-flushed object has its only copy in the
+// write-cache. The shard removes a cached copy in three places only: while physically
+// removing objects (deleteObjs, contracts above), when a plain garbage mark was just set
+// (MarkGarbage with the default mark - a redundant-copy mark keeps the object available until
+// GC removes it), and in Put when the metabase refused the object that had just been cached.
+//@ frame call((writecache.Cache).Delete) only in (*Shard).deleteObjs, (*Shard).MarkGarbage, (*Shard).Put
+//@   property C15
+//@ ghost pred metabaseRefusedTheObject() bool
+//@ callrule c15_put_metabase_verdict in (*Shard).Put
+//@   property C15
+//@   callee (*metabase.DB).PutCounted
+//@   defines err != nil ==> metabaseRefusedTheObject()
+//@ callrule c15_put_drops_the_cached_copy_only_of_a_refused_object in (*Shard).Put
+//@   property C15
+//@   callee (writecache.Cache).Delete
+//@   requires [object_was_refused_by_the_metabase] metabaseRefusedTheObject()
+//@ callrule c15_mark_drops_cached_copies_only_for_the_plain_mark in (*Shard).MarkGarbage
+//@   property C15
+//@   callee (writecache.Cache).Delete
+//@   requires [only_the_plain_garbage_mark_hides_the_object_at_once] mark == metabase.GarbageMarkDefault
